@@ -139,7 +139,9 @@ def replay_dot(case):
 
     cols, lhs = case["cols"], sorted(case["lhs"])
     df = pandas.DataFrame({c: [1.0 + i, 2.0 * (i + 1), 7.0 - i] for i, c in enumerate(cols)})
-    formula = (" + ".join(lhs) + " ~ 0 + .") if lhs else "0 + ."
+    from ..matlib import quote
+
+    formula = (" + ".join(quote(v) for v in lhs) + " ~ 0 + .") if lhs else "0 + ."
     base = {"formula": formula, "columns": cols}
     bad = []
     try:
@@ -171,7 +173,7 @@ MATCHERS = {"required_variables_of_transform_named_column": _m_transforms_name}
 def run(ctx: Ctx) -> None:
     global BYKEY
     ctx.rule = ("256 presence patterns of the names x, z, I (also a transform), `x y` (needs quoting) over data and context x 7 formulas (plain, quoted, call, "
-                "brace expression, interaction); 72 (column order, left-hand side) cases for '.'; non-trivial = some name present in two layers")
+                "brace expression, interaction); 120 (column order, left-hand side incl. a name that needs quoting) cases for '.'; non-trivial = some name present in two layers")
     ctx.trusted = ["the concrete values placed in data / context (different per layer so that the source is observable)", "TLC"]
     ctx.matchers = MATCHERS
     out = workdir("c17") / "cases.ndjson"
